@@ -288,7 +288,9 @@ static int scan_line(npd_scan_state_t *nssp)
 		for (size_t s = 3; s < nssp->nss_field_count; ++s) {
 		    FIELD(nssp, s)[-1] = ',';
 		}
-		nssp->nss_field_count = 2;
+		if (nssp->nss_field_count > 2) {
+		    nssp->nss_field_count = 2;
+		}
 		nssp->nss_record_type = T_KPARAMETERS;
 		return 0;
 	    }
